@@ -212,7 +212,7 @@ class World:
             st.buf = []
         self._written = ''
         signal.signal(signal.SIGALRM, _on_alarm)
-        signal.setitimer(signal.ITIMER_REAL, CALL_GUARD_S)
+        signal.setitimer(signal.ITIMER_REAL, CALL_GUARD_S, 2.0)   # repeating: a swallowed alarm fires again
         self._gchange = None
         try:
             with np.errstate(all='ignore'), warnings.catch_warnings():
